@@ -329,3 +329,98 @@ if __name__ == '__main__':
     import sys
     t, _ = translate_first_order(sys.argv[1] if len(sys.argv) > 1 else '/repo')
     print(emit_first_order(t))
+
+
+# ---------------------------------------------------------------------------
+# FEMElementalAttribute._generate_surface_core(surface_ids, last_id_end): the element type given
+# to a group of facets, decided by the number of nodes per facet (2-D array: shape[1]; 1-D object
+# array: polygon).  Read by meaning like _to_first_order: the body is interpreted for concrete
+# shapes (5, w), w = 0..12, and (5,), with module / class constants resolved; only the KEY of the
+# returned dict is evaluated.  Result: gen/FacetType.v.
+FACET_WIDTHS = list(range(0, 13))
+BASELINE_FACET_TYPE = {0: None, 1: None, 2: None, 3: 'tri', 4: 'quad', '1d': 'polygon'}
+BASELINE_FACET_TYPE.update({w: 'polygon' for w in range(5, 13)})
+
+
+def _interp_key(stmts, env):
+    def ev(e):
+        try:
+            return eval(compile(ast.Expression(e), '<c09>', 'eval'), {'__builtins__': _SAFE}, env)
+        except Exception as ex:
+            raise TranslateError(f'_generate_surface_core: cannot evaluate {ast.unparse(e)!r}: {type(ex).__name__}')
+    for st in stmts:
+        if isinstance(st, (ast.Pass,)) or (isinstance(st, ast.Expr) and isinstance(st.value, ast.Constant)):
+            continue
+        if isinstance(st, ast.If):
+            r = _interp_key(st.body if ev(st.test) else st.orelse, env)
+            if r is not None:
+                return r
+            continue
+        if isinstance(st, ast.Raise):
+            raise _Raise()
+        if isinstance(st, ast.Assign) and len(st.targets) == 1 and isinstance(st.targets[0], ast.Name):
+            env[st.targets[0].id] = ev(st.value)
+            continue
+        if isinstance(st, ast.Return) and isinstance(st.value, ast.Dict) and len(st.value.keys) == 1 \
+                and st.value.keys[0] is not None:
+            k = ev(st.value.keys[0])
+            if isinstance(k, str):
+                return k
+        raise TranslateError(f'_generate_surface_core: unrecognised statement {ast.unparse(st)[:60]!r}')
+    return None
+
+
+def translate_facet_type(repo):
+    f = Path(repo) / 'femio' / 'fem_elemental_attribute.py'
+    src = f.read_text()
+    tree = ast.parse(src)
+    cls = next((n for n in tree.body if isinstance(n, ast.ClassDef) and n.name == 'FEMElementalAttribute'), None)
+    if cls is None:
+        raise TranslateError('class FEMElementalAttribute not found')
+    mod_consts, cls_consts = _literal_constants(tree.body), _literal_constants(cls.body)
+    if cls_consts.get('ELEMENT_TYPES') != HARNESS_ELEMENT_TYPES:
+        raise TranslateError('ELEMENT_TYPES differs from the type numbering of the model')
+    fns = [n for n in cls.body if isinstance(n, ast.FunctionDef) and n.name == '_generate_surface_core']
+    if len(fns) != 1:
+        raise TranslateError('_generate_surface_core not found exactly once')
+    fn = fns[0]
+    args = [a.arg for a in fn.args.args if a.arg not in ('self', 'cls')]
+    if len(args) != 2:
+        raise TranslateError('_generate_surface_core: unexpected signature')
+    ns = _NS()
+    for k, v in cls_consts.items():
+        setattr(ns, k, v)
+    table = {}
+    for w in FACET_WIDTHS + ['1d']:
+        arr = _NS()
+        arr.shape = (5,) if w == '1d' else (5, w)
+        arr.ndim = len(arr.shape)
+        env = dict(mod_consts)
+        env.update({args[0]: arr, args[1]: 0, 'self': ns, 'cls': ns, 'FEMElementalAttribute': ns})
+        try:
+            r = _interp_key(fn.body, env)
+            if r is None:
+                raise TranslateError('_generate_surface_core: falls off the end')
+            if r not in HARNESS_ELEMENT_TYPES:
+                raise TranslateError(f'_generate_surface_core: unknown element type {r!r}')
+            table[w] = r
+        except _Raise:
+            table[w] = None
+    if len({table[w] for w in range(5, 13)}) != 1:
+        raise TranslateError('_generate_surface_core: not one type for every width above 4')
+    consumed = {'fem_elemental_attribute.py:FEMElementalAttribute._generate_surface_core':
+                hashlib.sha256(ast.get_source_segment(src, fn).encode()).hexdigest()}
+    return table, consumed
+
+
+def emit_facet_type(table):
+    def o(v):
+        return 'None' if v is None else f'Some {HARNESS_ELEMENT_TYPES.index(v)}%nat'
+    lines = [f'  | {w} => {o(table[w])}   (* {table[w]} *)' for w in range(0, 5)]
+    return ('(* generated by translate/c09_cfg.py (translate_facet_type) from the tree under test - do not edit.\n'
+            '   FEMElementalAttribute._generate_surface_core: element type (index in ELEMENT_TYPES) of a group of\n'
+            '   facets with w nodes each; None = raises; widths above 4 (interpreted for 5..12) share one answer *)\n'
+            'Definition facet_type (w : nat) : option nat :=\n  match w with\n' + '\n'.join(lines) +
+            f'\n  | _ => {o(table[5])}   (* {table[5]} *)\n  end%nat.\n'
+            f'(* a 1-D (object) array of facets of different lengths *)\n'
+            f'Definition facet_type_1d : option nat := {o(table["1d"])}.\n')
